@@ -42,7 +42,7 @@ def eq_worker(_):
     return {"rows": rows, "functions": sorted(it.functions_entered)}
 
 
-def check(ctx, rep: Report):
+def _check_main(ctx, rep: Report):
     eq = core_impl(ctx.H, "eq").impl
     site0 = f"{eq.module.relpath}:{eq.node.lineno}"
     # ---- ALL (AST polarity)
@@ -161,3 +161,10 @@ def check(ctx, rep: Report):
     for stmt, what, site in sorted(set(bad))[:2]:
         rep.violate(Violation("C10.RECON", f"C10.RECON|{stmt[:60]}", f"InitMethod.init: `{stmt}` tests the truthiness of a constructor value/default: falsy attribute values (0, '', [], None, False) are dropped, so Cls(**values_of(x)) != x",
                               site, "InitMethod.init"))
+
+
+def check(ctx, rep):
+    from . import keyedrules, metarules, shared
+    _check_main(ctx, rep)
+    keyedrules.order_bearing(ctx, rep, "C10.CONT")
+    keyedrules.keyedset_eq(ctx, rep, "C10.CONTSET")
